@@ -147,10 +147,14 @@ theorem quiet_receivedMsg (m : Msg) {v : World} (hv : Halted v) : Quiet v (recei
 
 theorem quiet_mgrGotVersions (vv : Vers) {v : World} (hv : Halted v) : Quiet v (mgrGotVersions vv v).1 := by
   unfold mgrGotVersions
+  split
+  · exact Quiet.refl _
+  rename_i dv _
+  unfold mgrGotVersionsWith
   dsimp only
   split
-  · rw [mInput_halted (w := mainError { v with dver := findShared Consts.DILATION_VERSIONS vv.can }) hv.1]; quiet_rfl
-  · rw [mInput_halted (w := { v with dver := findShared Consts.DILATION_VERSIONS vv.can }) hv.1]; quiet_rfl
+  · rw [mInput_halted (w := mainError { v with dver := dv }) hv.1]; quiet_rfl
+  · rw [mInput_halted (w := { v with dver := dv }) hv.1]; quiet_rfl
 
 theorem quiet_drainMsgs (l : List Msg) : ∀ x : World, Halted x → Quiet x (drainMsgs l x).1 := by
   induction l with
